@@ -94,6 +94,22 @@ class ThrottleDriver:
         if name == "Arrive":
             c = args[0]
             self.tasks[c] = self.loop.create_task(self._caller(c))
+        elif name == "TickArrive":
+            # the caller is a task that exists already and is woken by a timer AT the next instant - registered now, so it
+            # fires after every timer the throttle itself has set for that instant, and the caller runs on before a call
+            # that is merely handed the lock at that instant does
+            c = args[0]
+            at = self.loop.create_future()
+            self.loop.call_at(T0 + (self.now + 1) * self.unit, at.set_result, None)
+
+            async def late():
+                await at
+                await self._caller(c)
+
+            self.tasks[c] = self.loop.create_task(late())
+            self.loop.quiesce()
+            self.now += 1
+            self.loop.advance(T0 + self.now * self.unit)
         elif name == "Tick":
             self.now += 1
             self.loop.advance(T0 + self.now * self.unit)
@@ -132,12 +148,13 @@ def gen_trace(rnd, ncalls=12):
             ch = [("Tick", [])] * 3
             if arrived < ncalls:
                 ch += [("Arrive", [arrived + 1])] * (6 if rnd.random() < 0.5 else 2)
+                ch += [("TickArrive", [arrived + 1])] * 2
             for c in running:
                 ch.append(("FnEnd", [c, rnd.choice(["val", "exc"])]))
             if waiting and rnd.random() < 0.3:
                 ch.append(("Cancel", [rnd.choice(waiting)]))
             name, args = rnd.choice(ch)
-            if name == "Arrive":
+            if name in ("Arrive", "TickArrive"):
                 arrived += 1
             o = d.apply(name, tuple(args))
             tr.append(dict(ev=name, args=args, obs=dict(starts=[dict(x) for x in o["starts"]], res=list(o["res"]))))
@@ -160,8 +177,8 @@ def gen_trace(rnd, ncalls=12):
 
 
 def consts(tier, **kw):
-    c = dict(NCalls=3, Limits=[1, 2], Periods=[2, 3], MaxT=4, Bug="none") if tier == "quick" else \
-        dict(NCalls=4, Limits=[1, 2, 3], Periods=[2, 3], MaxT=4, Bug="none")
+    c = dict(NCalls=3, Limits=[1, 2], Periods=[2, 3], MaxT=4, Late=False, Bug="none") if tier == "quick" else \
+        dict(NCalls=4, Limits=[1, 2, 3], Periods=[2, 3], MaxT=4, Late=False, Bug="none")
     c.update(kw)
     return c
 
@@ -169,8 +186,8 @@ def consts(tier, **kw):
 def run(rep, work, tier, seed):
     c = consts(tier)
     rep.extra["constants"] = c
-    big = dict(NCalls=4, Limits=[1, 2, 3], Periods=[2, 3], MaxT=5, Bug="none") if tier == "quick" else \
-        dict(NCalls=5, Limits=[1, 2, 3], Periods=[2, 3], MaxT=6, Bug="none")
+    big = dict(NCalls=4, Limits=[1, 2, 3], Periods=[2, 3], MaxT=5, Late=False, Bug="none") if tier == "quick" else \
+        dict(NCalls=5, Limits=[1, 2, 3], Periods=[2, 3], MaxT=6, Late=False, Bug="none")
     # leg M on a larger instance without cancellations first (pure rate-limiting), then with everything + liveness
     leg_m(rep, work, SPEC, f"mc_{tier}", cfg_text(c, spec="Spec", invariants=INVS, properties=["EveryCallStarts"]),
           expect_actions=["Decide", "Wake", "Arrive", "Tick", "FnEnd", "Cancel"])
@@ -181,14 +198,18 @@ def run(rep, work, tier, seed):
                          ("prune_lt", ["NoNeedlessDelay", "RateBound"])):
             leg_mutant(rep, work, SPEC, f"mutant_{bug}", cfg_text(consts("quick", Bug=bug), invariants=INVS), inv)
     leg_r(rep, work, SPEC, f"conf_{tier}", cfg_text(c, invariants=INVS), ThrottleDriver, internal=INTERNAL)
+    # calls arriving at the very instant a window slot frees, with a sleeper waking and another call queued on the lock
+    late = dict(NCalls=5, Limits=[2], Periods=[1] if tier == "quick" else [1, 2], MaxT=1 if tier == "quick" else 2, Late=True, Bug="none")
+    leg_m(rep, work, SPEC, f"late_mc_{tier}", cfg_text(late, invariants=INVS), expect_actions=["TickArrive", "Wake", "Decide"])
+    leg_r(rep, work, SPEC, f"late_conf_{tier}", cfg_text(late, invariants=INVS), ThrottleDriver, internal=INTERNAL)
     # leg T: arrival patterns of up to 12 calls recorded from the real throttle, validated by a trace module generated
     # from Throttle.tla (internal Decide / Wake / Settle steps run silently between the logged events)
     rnd = random.Random(seed * 17 + 3)
     traces = gen_traces(rep, lambda: gen_trace(rnd), 120 if tier == "quick" else 1500)
     leg_t_gen(rep, work, SPEC, f"trace_{tier}", traces,
               variables=["limit", "period", "pform", "now", "entries", "lockq", "pc", "wake", "arrived", "starts", "res", "obs"],
-              constants=dict(NCalls=12, Limits="1..4", Periods="{2, 3, 5}", MaxT=100000, Bug='"none"'),
-              config_vars=["limit", "period", "pform"], actions=dict(Arrive=1, Tick=0, FnEnd=2, Cancel=1),
+              constants=dict(NCalls=12, Limits="1..4", Periods="{2, 3, 5}", MaxT=100000, Bug='"none"', Late="TRUE"),
+              config_vars=["limit", "period", "pform"], actions=dict(Arrive=1, TickArrive=1, Tick=0, FnEnd=2, Cancel=1),
               internal="(M!Internal \\/ M!Settle)", quiet="M!Rest",
               invariants=["RateBound", "ArrivalOrder", "NoNeedlessDelay", "Transparent"])
     rep.assumptions += [
